@@ -12,12 +12,16 @@
    4. TRACE  TLC evaluates the three clauses on every record   (Moment_Trace)
  (b) firing
    1. MC     implementation-shaped model of periodics/defer/dispatch/complete
-             on the virtual clock with the property-level invariants
+             (Fire = "rearm": the repaired defer of fixes/C20_rearm.patch;
+             "pinned": finding 11) on the virtual clock with the property-level
+             invariants; the pinned variant must violate Armed, the repaired
+             one must reach a second firing
    2. GEN    every transition of the bounded instance as the input schedule
              reaching it                                     (MomentFire_Gen)
    3. REPLAY each schedule runs on the real schedule/farm code, then drains and
              advances a week and a month with the monitors on
-   4. TRACE  FireTargets, BootFires, BootOnce, Armed, Recurs on every step
+   4. TRACE  FireTargets, BootFires, BootOnce, Armed, Recurs, Once on every
+             step, per node
                                                             (MomentFire_Trace)
 Python only materialises TLC's choices, projects, counts and reports.
 '''
@@ -314,6 +318,7 @@ MUTANTS = [  # (in-memory mutant of the real code, part, clause that must be rep
     ('leap_day_raises', 'a', 'C20.Computable'),
     ('first_target_only', 'b', 'C20.FireTargets'),
     ('boot_by_short_name', 'b', 'C20.BootFires'),
+    ('forget_served', 'b', 'C20.Once'),  # only meaningful on a tree with the repaired defer (fixes/C20_rearm.patch)
     ('timer_late', 'b', 'C20.Armed'),
 ]
 
@@ -353,6 +358,9 @@ def selftest(pid, seed):
         finally:
             del os.environ['VERIF_C20_MUTANT']
         hit = sum(1 for v in chk.violations if v['clause'] == clause and not v['signature'].startswith('idle-status-waiting'))
+        if name == 'forget_served' and hit == 0 and chk.counters.get('schedules_with_a_second_firing', 0) == 0:
+            print(f'SELFTEST {pid} mutant {name}: skipped, this tree never fires a second time (defer without fixes/C20_rearm.patch)')
+            continue
         results.append((f'mutant {name}', clause, hit))
     # corrupted trace fields on an unmutated run
     chk = core.Check(pid, 'selftest', seed)
@@ -440,10 +448,11 @@ def run(pid, tier, seed, replay=None):
         '7 weekdays, days of month 1..31, 4 dates, 3 event times; wall clock injected (module attribute datetime of dawgie.pl.schedule)',
         'day-of-month matches literally: a month without that day has no occurrence; no lower bound on the delay (the occurrence just missed may be designated)',
         'firing: one periodic node (task or analysis; 8 event sets, 5 start instants) or two nodes in different packages without data dependency, with the same '
-        'short algorithm name (t0.a, t1.a) or not (t0.a, t1.b) (3 kind pairs, 6 event-set pairs, 2 starts): 152 configurations; <= 2 (quick) / 3 (thorough) environment steps '
+        'short algorithm name (t0.a, t1.a) or not (t0.a, t1.b) (3 kind pairs, 7 event-set pairs, 2 starts): 164 configurations; <= 2 (quick) / 3 (thorough) environment steps '
         '(5 in the thorough MC run), then drain + one week + one month; '
         'reactor callbacks atomic; workers/database are environment stubs; executing = task messages decoded from the worker transports',
-        'a node that is queued or executing when a moment passes is exempt from firing for that moment',
+        'a node that is queued (with work) or executing when a moment passes is exempt from firing for that moment; a firing up to 300 s before a moment is the firing for it; '
+        'an event fires at most once per occurrence (two firings are not both within [m - 300 s, end of the day of m])',
     ]
     return chk.finish(
         '(a) every specification of the domain x clock instants (all 4384 in thorough; first and last two days of every month + 24 seeded days in quick) + seeded random instants: '
